@@ -78,12 +78,7 @@ type Ctx struct {
 	armed bool
 
 	// State of the response header block that is being received, owned by the
-	// read loop: the start of a field that a frame boundary cut in two, how
-	// many fields of the block have been decoded, and whether one of them was
-	// a regular field. A block may be split over CONTINUATION frames at any
-	// octet.
-	hdrPending []byte
-	hdrFields  int
+	// read loop: whether one of its fields was a regular field.
 	hdrRegular bool
 	// hdrStatus is the :status of the block being received (0: none yet), and
 	// hdrBlocks counts the final-response header blocks already completed: the
@@ -221,8 +216,6 @@ func acquireCtx(req *fasthttp.Request, res *fasthttp.Response) *Ctx {
 	ctx.resolved = false
 	ctx.finished = false
 	ctx.armed = false
-	ctx.hdrPending = ctx.hdrPending[:0]
-	ctx.hdrFields = 0
 	ctx.hdrRegular = false
 	ctx.hdrStatus = 0
 	ctx.hdrBlocks = 0
